@@ -199,7 +199,7 @@ pub fn run(ctx: &mut Ctx) {
     // long alternative lists: written out (17..300 alternatives, some 3000) and produced by a
     // set operation (a list against a partner, so that the result has hundreds of pieces)
     ctx.stratum("L-long-alternative-lists", false);
-    let n = ctx.tier.n(60, 2_000);
+    let n = ctx.tier.n(60, 500);
     for i in 0..n {
         if !ctx.take() {
             continue;
